@@ -1,0 +1,44 @@
+//! C09: public constructor for the crate-private rate-limited reader.
+use std::{
+    pin::Pin,
+    sync::Arc,
+    task::{Context, Poll},
+};
+
+use tokio::{
+    io::{AsyncRead, ReadBuf},
+    sync::watch,
+};
+
+use crate::server::{
+    ClientRateLimit, Metrics,
+    streams::{InvalidBucketConfig, RateLimited},
+};
+
+/// Wraps `RateLimited<S>`; reads go through `RateLimited::poll_read` unchanged.
+pub struct Limited<S>(RateLimited<S>);
+
+impl<S> Limited<S> {
+    /// `RateLimited::from_watcher` with fresh metrics.
+    pub fn from_watcher(
+        io: S,
+        rx: watch::Receiver<Option<ClientRateLimit>>,
+    ) -> Result<Self, InvalidBucketConfig> {
+        RateLimited::from_watcher(io, rx, Arc::new(Metrics::default())).map(Limited)
+    }
+
+    /// Current value of the "reads were rate-limited" counter.
+    pub fn limited_count(&self) -> u64 {
+        *self.0.limited_watcher().borrow()
+    }
+}
+
+impl<S: AsyncRead + Unpin> AsyncRead for Limited<S> {
+    fn poll_read(
+        mut self: Pin<&mut Self>,
+        cx: &mut Context<'_>,
+        buf: &mut ReadBuf<'_>,
+    ) -> Poll<std::io::Result<()>> {
+        Pin::new(&mut self.0).poll_read(cx, buf)
+    }
+}
